@@ -150,7 +150,29 @@ class C01(GenCheck):
 
     def gen_cases(self):
         n = 500 if self.tier == "quick" else 8000
-        return [make_case(self.rng) for _ in range(n)]
+        out = []
+        while len(out) < n:
+            c = make_case(self.rng)
+            if self.sane(c["expr"]):
+                out.append(c)
+        return out
+
+    @staticmethod
+    def sane(expr):
+        """constant sub-trees are evaluated by Python before the DSL sees them; a tree whose folding gives a
+        constant outside the 64-bit world (or no number at all) is not a DSL expression of the property"""
+        try:
+            f = C01.fold(expr)
+        except Exception:      # noqa
+            return False
+
+        def consts(x):
+            if x[0] == "c":
+                yield x[1]
+            elif x[0] not in ("v", "r"):
+                for t in x[1:]:
+                    yield from consts(t)
+        return all(isinstance(c, int) and -(1 << 70) < c < (1 << 70) for c in consts(f))
 
     def prepare(self, cases):
         return self.execute(cases)
@@ -194,8 +216,10 @@ class C01(GenCheck):
                     return ["c", -subs[0][1]]
                 if x[0] == "abs":
                     return ["c", abs(subs[0][1])]
+                if x[0] == "<<" and not -4096 < subs[1][1] < 4096:
+                    raise OverflowError("shift count out of any reasonable range")
                 return ["c", dsl.OPS[x[0]](subs[0][1], subs[1][1])]
-            except (ZeroDivisionError, ValueError, OverflowError):
+            except (ZeroDivisionError, ValueError, OverflowError, MemoryError):
                 return [x[0]] + subs
         # Register (64 bit) +/- int is a Sum; adding further ints folds into its constant
         def longreg(t):
@@ -278,7 +302,7 @@ class C01(GenCheck):
     def holds(self, case, o):
         if isinstance(o, Err):
             if o.code == 6:
-                return True if "no value" in o.what or "not enough registers" in o.what or "ZeroDivisionError" in o.what else f"generator refused a well-typed statement: {o.what}"
+                return True if "no value" in o.what or "not enough registers" in o.what or "ZeroDivisionError" in o.what or "OverflowError" in o.what or "MemoryError" in o.what else f"generator refused a well-typed statement: {o.what}"
             return o.what
         red, checkable, why, W = self.expected(case)
         if not checkable:
